@@ -16,6 +16,9 @@ def install(B, LenV):
     # ================================================================== functions
     @method
     def f_len(self, I, x):
+        f = I.uover(x, "__len__")
+        if f is not None:
+            return I.call(f, [x], {})
         if isinstance(x, Seq):
             if x.has_seg():
                 return LenV(sum(1 for i in x.items if type(i) is not Seg))
@@ -124,6 +127,10 @@ def install(B, LenV):
         self.check_hashable(x)
         if isinstance(x, Obj):
             d, owner = x.cls.lookup("__hash__")
+            if d is not None and not owner.builtin:
+                return I.call(d, [x], {})
+        if isinstance(x, ClassV) and x.meta is not None:
+            d, owner = x.meta.lookup("__hash__")
             if d is not None and not owner.builtin:
                 return I.call(d, [x], {})
         return Digest(x)
